@@ -152,7 +152,26 @@ func C14(p *core.Program, r *core.Report) {
 						}
 					}
 					r.Add("P1", "NewParser: OpenGraph accessor only if NewParser returned no error", p.Pos(og.Pos()), len(cutErr) > 0 && !core.InstrReachable(np, cutErr, og), "with the err==nil edge removed the append must be unreachable")
-					r.Add("P1", "NewParser: OpenGraph accessor only if the parser is non-nil", p.Pos(og.Pos()), len(cutNil) > 0 && !core.InstrReachable(np, cutNil, og), "with the parser!=nil edge removed the append must be unreachable")
+					// the nil test of the parser is redundant exactly when opengraph.NewParser pairs a nil
+					// error with a parser it has just made (every `return x, nil` returns a fresh object)
+					paired := false
+					if ogNew := mustInl(p, r, "P1", "mod/internal/markup/opengraph.NewParser"); ogNew != nil {
+						paired = true
+						nOK := 0
+						for _, ret := range core.Returns(ogNew) {
+							if len(ret.Results) != 2 || !core.IsNilConst(ret.Results[1]) {
+								continue
+							}
+							nOK++
+							if _, fresh := core.StripConv(ret.Results[0]).(*ssa.Alloc); !fresh {
+								paired = false
+							}
+						}
+						paired = paired && nOK >= 1
+					}
+					guarded := len(cutNil) > 0 && !core.InstrReachable(np, cutNil, og)
+					r.Add("P1", "NewParser: OpenGraph accessor only if the parser is non-nil", p.Pos(og.Pos()), guarded || paired,
+						fmt.Sprintf("parser != nil tested before the append: %v; opengraph.NewParser returns a fresh parser whenever it returns no error: %v", guarded, paired))
 				}
 			}
 		}
